@@ -457,10 +457,13 @@ class ValueWrapper(Term):
             or not self.allow_parametrize
         ):
             sql = self.get_value_sql(ctx)
-            return format_alias_sql(sql, self.alias, ctx)
+        else:
+            param = ctx.parameterizer.create_param(self.value)
+            sql = param.get_sql(ctx.copy(with_alias=False))
 
-        param = ctx.parameterizer.create_param(self.value)
-        return format_alias_sql(param.get_sql(ctx), self.alias, ctx)
+        if ctx.with_alias:
+            return format_alias_sql(sql, self.alias, ctx)
+        return sql
 
 
 class JSON(Term):
@@ -504,7 +507,9 @@ class JSON(Term):
     def get_sql(self, ctx: SqlContext) -> str:
         # the serialised document is a string value: quote and escape it as one
         sql = ValueWrapper.get_formatted_value(self._recursive_get_sql(self.value), ctx)
-        return format_alias_sql(sql, self.alias, ctx)
+        if ctx.with_alias:
+            return format_alias_sql(sql, self.alias, ctx)
+        return sql
 
     def get_json_value(self, key_or_index: str | int) -> "BasicCriterion":
         return BasicCriterion(
@@ -600,7 +605,9 @@ class LiteralValue(Term):
         self._value = value
 
     def get_sql(self, ctx: SqlContext) -> str:
-        return format_alias_sql(self._value, self.alias, ctx)
+        if ctx.with_alias:
+            return format_alias_sql(self._value, self.alias, ctx)
+        return self._value
 
 
 class NullValue(LiteralValue):
@@ -756,7 +763,9 @@ class Tuple(Criterion):
     def get_sql(self, ctx: SqlContext) -> str:
         element_ctx = ctx.copy(with_alias=False)
         sql = "({})".format(",".join(term.get_sql(element_ctx) for term in self.values))
-        return format_alias_sql(sql, self.alias, ctx)
+        if ctx.with_alias:
+            return format_alias_sql(sql, self.alias, ctx)
+        return sql
 
     @property
     def is_aggregate(self) -> bool | None:  # type:ignore[override]
@@ -794,11 +803,13 @@ class Array(Tuple):
             sql = "[{}]".format(values)
             if ctx.dialect in (Dialects.POSTGRESQL, Dialects.REDSHIFT):
                 sql = "ARRAY[{}]".format(values) if len(values) > 0 else "'{}'"
+        else:
+            param = ctx.parameterizer.create_param(self.original_value)
+            sql = param.get_sql(ctx.copy(with_alias=False))
 
+        if ctx.with_alias:
             return format_alias_sql(sql, self.alias, ctx)
-
-        param = ctx.parameterizer.create_param(self.original_value)
-        return format_alias_sql(param.get_sql(ctx), self.alias, ctx)
+        return sql
 
 
 class Bracket(Tuple):
@@ -1047,7 +1058,9 @@ class PeriodCriterion(RangeCriterion):
             start=self.start.get_sql(operand_ctx),
             end=self.end.get_sql(operand_ctx),
         )
-        return format_alias_sql(sql, self.alias, ctx)
+        if ctx.with_alias:
+            return format_alias_sql(sql, self.alias, ctx)
+        return sql
 
 
 class BitwiseAndCriterion(Criterion):
@@ -1416,7 +1429,9 @@ class All(Criterion):
 
     def get_sql(self, ctx: SqlContext) -> str:
         sql = "{term} ALL".format(term=self.term.get_sql(ctx.copy(with_alias=False)))
-        return format_alias_sql(sql, self.alias, ctx)
+        if ctx.with_alias:
+            return format_alias_sql(sql, self.alias, ctx)
+        return sql
 
 
 class CustomFunction:
@@ -1923,4 +1938,6 @@ class AtTimezone(Term):
             interval="INTERVAL " if self.interval else "",
             zone=self.zone,
         )
-        return format_alias_sql(sql, self.alias, ctx)
+        if ctx.with_alias:
+            return format_alias_sql(sql, self.alias, ctx)
+        return sql
